@@ -139,7 +139,18 @@ CLAIMED["C09"] = ("DESIGN.md §4 C09",
     "trusted: pysym; formula nodes are attribute bags; model stub for names; no header labels; outside: named (header) "
     "references, row/column spans, uuid map from archives, cache invalidation history")
 
-NOT_APPLICABLE = {}
+CLAIMED["C15"] = ("DESIGN.md §4 C15 (partial)",
+    "Border edge model only: through the real Table.set_cell_border, model.set_cell_border, cell_for_stroke and CellBorder "
+    "setters on a 3x3 table with symbolic positions: a stroke is reported by its cell and as the opposite side by the "
+    "neighbour, nothing else changes, and of two overlapping strokes (from either cell sharing the edge) the later wins. "
+    "Style attribute round trips are NOT claimed.",
+    "trusted: pysym; add_stroke reduced to its order stamp; outside: style archives (nested protobuf), images, fonts, stroke "
+    "run patching in saved layers, merged cells")
+
+NOT_APPLICABLE = {"C20": "not applicable to this technique here: the deciding behaviour lives in the C-level csv reader/writer and strtod "
+                  "(float coercion) and in whole-program document I/O (Document.save / reopen); what remains in Python "
+                  "(Converter._transform_data) is pandas-style column plumbing over those results - no kernel within reach of "
+                  "bounded symbolic execution whose verdict would say anything about CSV round trips"}
 
 
 def main():
